@@ -26,6 +26,9 @@ type liveState struct {
 	failNext map[string]int
 	failKind map[string]int
 	writes   int
+	// onCanceled is told which subscription instance got a context.Canceled
+	// error from a resolver
+	onCanceled func(inst int)
 }
 
 type liveRes struct {
@@ -84,6 +87,14 @@ func (l *liveState) dep(ctx context.Context, field string, id int64) error {
 		case 3:
 			l.w.c.Fault("resolver-panic")
 			panic("SECRET-panic-" + key)
+		case 4:
+			// a resolver whose own work was cancelled (for instance a database
+			// call): the subscription ends itself
+			l.w.c.Fault("resolver-context-canceled")
+			if l.onCanceled != nil {
+				l.onCanceled(inst)
+			}
+			return context.Canceled
 		}
 	}
 	return nil
